@@ -17,6 +17,7 @@ package grpcgcp
 import (
 	"context"
 	"fmt"
+	"os"
 	"runtime"
 	"sort"
 	"strings"
@@ -577,8 +578,50 @@ func TestVerifPoolStress(t *testing.T) {
 // ssQuiescent: conservation (C02) and the pool bound (C03) at quiescence.
 func ssQuiescent(out *vOut, env vEnv, cfg ssCfg, rng *vRand, idx int64) {
 	ssInstallYield(uint64(env.Seed)*104729+uint64(idx), 10)
-	r := ssExecute(cfg, env.Seed*1000+idx, 400*time.Millisecond, 4000)
+	if env.Prop == "C05" || env.Prop == "C06" {
+		// hostile additions for the totality properties: stale pickers, many
+		// client-side deadline errors (refreshes), factory failures
+		cfg.stalePct, cfg.dePct = 40, 40
+	}
+	var r *ssRun
+	finished := make(chan struct{})
+	go func() {
+		r = ssExecute(cfg, env.Seed*1000+idx, 400*time.Millisecond, 4000)
+		close(finished)
+	}()
+	select {
+	case <-finished:
+	case <-time.After(120 * time.Second):
+		// C06 under concurrency: the workload is bounded by operations and time,
+		// so not finishing means goroutines are blocked for good. Witness = the
+		// goroutines blocked on a lock inside repo code.
+		buf := make([]byte, 8<<20)
+		dump := string(buf[:runtime.Stack(buf, true)])
+		var chains []string
+		for _, g := range strings.Split(dump, "\n\n") {
+			lines := strings.Split(g, "\n")
+			if len(lines) < 2 || !(strings.Contains(lines[0], "sync.Mutex.Lock") || strings.Contains(lines[0], "sync.RWMutex") || strings.Contains(lines[0], "semacquire")) {
+				continue
+			}
+			if c := vRepoChain(vParseFrames(lines[1:]), "grpcgcp."); c != "" {
+				chains = append(chains, c)
+			}
+		}
+		sort.Strings(chains)
+		sig := "none"
+		if len(chains) > 0 {
+			sig = chains[0]
+		}
+		if env.Prop == "C06" {
+			out.violation(vViol{Sig: "C06.stress-hang:" + sig, Rule: "C06.stress-hang", Detail: fmt.Sprintf("concurrent workload (config %s) did not finish within 120s; goroutines blocked on locks in: %v", cfg.name, chains), Case: idx})
+		}
+		out.inconclusive("stress run did not finish")
+		out.write(env.Out)
+		os.Exit(0)
+	}
 	verifYieldFn = nil
+	out.hit("C06.stress-finished")
+	out.hit("C05.stress-no-crash")
 	picks, placed, _, _ := r.totals()
 	out.hitN("stress.picks", picks)
 	out.hitN("stress.placed", placed)
